@@ -8,4 +8,22 @@ PROPS = {
         "rule": "roundtrip of sampled ids (3/4 in the 10^7 id space, 1/4 any u32) + all border ids; parse of structured strings (valid renderings with other 3-byte prefixes, overflow region, signs, leading zeros) and random strings over an alphabet with 1-4 byte chars at every offset; distinct = distinct op lists; every case non-trivial",
         "assumptions": ["Rust u32::from_str grammar: optional '+', decimal digits, overflow is an error", "Display {:07} pads with zeros to at least 7 digits"],
     },
+    "C06": {
+        "rule": "64 ontologies (quick): flat ontologies (N disconnected terms, no inheritance) with N in {1..60 random, 150, 169, 170, 171, 172, 200, 500, 1000, 5000} (factorial table -> Lanczos switch at 170) whose records are DESIGNED against a primary sample of n terms: families of records sharing K with k swept over {min, min+1, expected, max-1, max, 1, 0, random} (k=0: no record may be reported), including (N,K,n,k)=(5000,1000,1000,1); further nested/random samples, HpoSet backgrounds (N = set size, sample inside), and hierarchical DAGs (inherited annotations) for the record-set clause; three annotation kinds; distinct = distinct op lists; non-trivial = at least one designed record in the summed-tail branch (min < k <= max) resp. inherited links for hierarchical cases",
+        "assumptions": [
+            "f64 evaluation (ln of the factorial table / Lanczos ln_gamma, exp, rounded sum, clamp) is tied to the exact rational tail only by the tolerance 1e-9 relative + 1e-300 absolute on the generated inputs (observed worst 5e-12 at N=5000)",
+            "the branch `x >= max -> 0` of Hypergeometric::sf is unreachable through the public enrichment functions (k <= min(K,n) always); it is covered by the theorems, not by the correspondence check",
+            "HashMap iteration order of the counts is irrelevant: records are compared sorted by id",
+        ],
+        "partial": "Lanczos/exp/ln accuracy of the f64 evaluation is covered by tolerance only; theorems are over Q (exact tail).",
+    },
+    "C17": {
+        "rule": "400 cases (quick) x 3-6 clustering runs of singleton HpoSets of distinct terms (n in 0..60; average linkage n <= 13 with dyadic tables = distinct integers < 2^12 times 2^12 so every nested mean is exact in f32, 1/5 of the average runs up to n = 30 with rounding mirrored by the Float32 model), four methods, distance tables: points on a line / dense ranks / random distinct integers < 2^24 / dyadic; inputs in an order unrelated to id order; union distance = fixed arithmetic mix of the two sorted member id vectors computed identically on both sides; tables on which two live distances tie at any step are rejected by an independent re-run in the generator (ties are broken by HashMap order); distinct = distinct op lists; non-trivial = some run with n >= 3",
+        "assumptions": [
+            "tie-free distance matrices only (the argmin among equal distances depends on HashMap iteration order)",
+            "Float32 of the Lean runtime = Rust f32 for <, + and /2 (IEEE-754 binary32); exact for the dyadic tables",
+            "theorems C17_update_* assume a linear order / field; f32 rounding is outside them",
+        ],
+        "partial": "C17_closest is proved relative to the live matrix of the model (first strict minimum = the unique argmin for tie-free matrices); closed forms of single/complete linkage as min/max over leaf pairs are not proved (recurrences only).",
+    },
 }
